@@ -221,6 +221,11 @@ def build_frag(f, sources, fnmeta):
     if len(hits) != 1:
         raise X.AnchorLost('frag anchor /%s/ matches %d lines in %s' % (rx, len(hits), o['fn']))
     end = stmt_end_line(lines, hits[0])
+    for _ in range(int(o.get('stmts', '1')) - 1):
+        nxt = end + 1
+        while nxt < len(lines) and not lines[nxt].strip():
+            nxt += 1
+        end = stmt_end_line(lines, nxt)
     frag = '\n'.join(lines[hits[0]:end + 1])
     ctx = T.Ctx(o['name'], 'plain', None, fnmeta['callees'])
     for pat, rep, optional in f.substs:
